@@ -47,7 +47,7 @@ func runC04(c *wk.Ctx) {
 	for k := 0; k < gen.NKinds; k++ {
 		c.Floor("node-kind:"+gen.Kind(k).String(), 1)
 	}
-	n := c.N(2500, 60000)
+	n := c.N(2500, 600000)
 	c.Cases(n, func(idx int64, r *wk.Rand) {
 		cfg := gen.Full()
 		var shape *gen.Shape
